@@ -4,9 +4,9 @@
    for every name conversion); [compile] instantiates them with lib/Strcase.v. *)
 From Coq Require Import String List NArith Bool.
 From J5V.lib Require Import Outcome Strcase.
-From J5V.model Require Import J5sAst Desc J5sWalk J5sLink J5sConvert J5sContract J5sValid J5sCorr.
+From J5V.model Require Import J5sAst Desc J5sWalk J5sLink J5sConvert J5sContract J5sSymbols J5sValid J5sCorr.
 From J5V.gen Require ImportsGen.
-From J5V.proofs Require Import J5sProofs J5sContractProofs J5sLinkProofs J5sResolveProofs J5sResolveCompleteProofs J5sServiceProofs J5sTotalProofs J5sCompileProofs J5sWitnessProofs.
+From J5V.proofs Require Import J5sProofs J5sContractProofs J5sLinkProofs J5sResolveProofs J5sResolveCompleteProofs J5sServiceProofs J5sTotalProofs J5sSymbolProofs J5sCompileProofs J5sSubPkgProofs J5sWitnessProofs.
 Import ListNotations.
 Local Open Scope N_scope.
 
@@ -176,31 +176,61 @@ Theorem C02_map_entry_type_name : forall nested fpkg scope en,
 Proof. exact link_name_entry. Qed.
 Print Assumptions C02_map_entry_type_name.
 
+(* ---- symbols: whenever a package converts, the linker's symbol table (every message, field,
+   enum, enum value, service and method of the generated files, fully qualified; plus the
+   symbols of the package's hand-written .proto files) is exactly the list of symbols the source
+   declares (J5sSymbols: read off the source with the README naming rules).  The symbol clause
+   of validity - that list has no duplicates - is therefore a statement about the source. *)
+Theorem C02_symbol_table_is_declared : forall snake camel screaming bd pkg fs,
+  convert_package snake camel screaming bd pkg = Ok fs ->
+  package_symbols bd pkg fs = decl_package_symbols snake camel screaming bd pkg.
+Proof. exact package_symbols_declared. Qed.
+Print Assumptions C02_symbol_table_is_declared.
+
 (* ---- acceptance: in a valid bundle every source file of every package converts, and the whole
    package compiles (conversion, link step, link of every imported generated file; the fuel of
    the dependency closure always suffices) *)
 Theorem C02_valid_packages_convert : forall snake camel screaming bd pkg,
-  valid_bundle snake camel bd = true -> (exists f, In f bd /\ bfile_pkg f = pkg) ->
+  valid_bundle snake camel screaming bd = true -> (exists f, In f bd /\ bfile_pkg f = pkg) ->
   exists D, convert_package snake camel screaming bd pkg = Ok D.
 Proof. exact convert_package_total. Qed.
 Print Assumptions C02_valid_packages_convert.
 
 Theorem C02_valid_packages_compile : forall snake camel screaming bd pkg,
-  valid_bundle snake camel bd = true -> (exists f, In f bd /\ bfile_pkg f = pkg) ->
+  valid_bundle snake camel screaming bd = true -> (exists f, In f bd /\ bfile_pkg f = pkg) ->
   exists D, compile_package snake camel screaming bd pkg = Ok D.
 Proof. exact compile_total. Qed.
 Print Assumptions C02_valid_packages_compile.
 
-(* ---- the property at full strength (structural contract: files, messages, enums, fields with
-   name / JSON name / number / type / cardinality / optionality, nesting to any depth), for every
-   name conversion; the service / topic / reference / type-name clauses are the separate theorems
-   above, stated on the same converter functions *)
+(* ---- the package-level statement: every package of a valid bundle compiles (conversion, the
+   linker's symbol table, link step, link of the imported generated files), and its output is,
+   per source file of the package (package_contract_full):
+   - the main file <path>.j5s.proto in the package, holding exactly the declared objects, oneofs
+     and enums: messages, enums, fields with name / JSON name / number / type / cardinality /
+     optionality, enum values, inline types nested under their names, to any depth;
+   - exactly when the source declares services, <dir>/service/<base>.p.j5s.proto in the package
+     <pkg>.service: per service <Name>Service with one rpc per method - input
+     .<pkg>.service.<Method>Request, output .<pkg>.service.<Method>Response or
+     .google.api.HttpBody, the declared HTTP verb, the path (base path joined, :name ->
+     {snake_name}), body "*" except for GET - and the request / response messages with the
+     declared fields;
+   - exactly when it declares topics, <dir>/topic/<base>.p.j5s.proto in <pkg>.topic: per topic
+     the <Topic>Topic service (two for request / reply) with the messaging role and topic name,
+     one rpc <Name>(.<pkg>.topic.<Name>Message) returns (.google.protobuf.Empty) per message,
+     and the messages with the implicit leading field and the declared ones;
+   - and no other file.
+   [valid] (J5sCorr: J5sValid.valid_bundle with the byte-exact strcase functions) = the
+   documented restrictions plus: no two declarations of a package generate the same proto
+   symbol; every run compares it with acceptance by the real compiler.
+   Not part of package_contract_full: which type a message / enum field names (C02_references_*,
+   C02_inline_type_name, C02_map_entry_type_name are statements on the converter functions) and
+   the dependency lists. *)
 Definition C02_full_statement : Prop :=
   forall bd pkg, valid bd = true -> (exists f, In f bd /\ bfile_pkg f = pkg) ->
-    exists D, compile bd pkg = Ok D /\ package_contract to_snake to_camel to_screaming_snake bd pkg D.
+    exists D, compile bd pkg = Ok D /\ package_contract_full to_snake to_camel to_screaming_snake bd pkg D.
 
 Theorem C02_full : C02_full_statement.
-Proof. exact (compile_correct to_snake to_camel to_screaming_snake). Qed.
+Proof. exact (compile_correct_full to_snake to_camel to_screaming_snake). Qed.
 Print Assumptions C02_full.
 
 (* ---- regression examples: the inputs of the repaired defects compile to the declared types *)
